@@ -264,10 +264,14 @@ Fixpoint raws (v : value) : list nat :=
 
 Definition is_wrapper (n : node) : bool := match n with Leaf (LWrapObj | LWrapFn) _ => true | _ => false end.
 
+Definition is_self (n : node) : bool := match n with Leaf LSelf _ => true | _ => false end.
+
 Fixpoint wf_sensor (n : node) : bool :=
   match n with
   | Leaf LSensor _ => true
-  | Node NSensorsDict _ cs => forallb (fun c => wf_sensor (snd c)) cs
+  | Node NSensorsDict _ cs =>
+      (* under the reserved name sits the composite's own part (if any), under every other name a sensor *)
+      forallb (fun c => if Nat.eqb (fst c) n_self then is_self (snd c) else wf_sensor (snd c)) cs
   | Node NSensorWrap _ [(a, s); (b, w)] => Nat.eqb a n_sensor && Nat.eqb b n_wrapper && wf_sensor s && is_wrapper w
   | _ => false
   end.
@@ -301,9 +305,15 @@ Proof.
     + (* SensorsDict *)
       cbn [observe raws sensor_leaves]. rewrite forallb_forall in H.
       clear -IH H. induction cs as [|c cs IHc]; simpl; [reflexivity|].
-      assert (E : raws (observe (snd c)) = sensor_leaves (snd c)) by (apply IH; [now left|apply H; now left]).
-      rewrite E. f_equal.
-      apply IHc; [intros x Hx; apply IH; now right | intros x Hx; apply H; now right].
+      pose proof (H c (or_introl eq_refl)) as Hc.
+      destruct (Nat.eqb (fst c) n_self) eqn:En; cbn [negb].
+      * (* the composite's own part: no data, no sensor *)
+        destruct (snd c) as [k i|k i l]; try discriminate Hc. destruct k; try discriminate Hc. cbn [sensor_leaves app].
+        apply IHc; [intros x Hx; apply IH; now right | intros x Hx; apply H; now right].
+      * cbn [flat_map snd raws].
+        assert (E : raws (observe (snd c)) = sensor_leaves (snd c)) by (apply IH; [now left|exact Hc]).
+        rewrite E. f_equal.
+        apply IHc; [intros x Hx; apply IH; now right | intros x Hx; apply H; now right].
     + (* SensorWrapper *)
       destruct cs as [|[a s] [|[b w] [|]]]; try discriminate.
       apply andb_true_iff in H as [H Hw]. apply andb_true_iff in H as [H Hs]. apply andb_true_iff in H as [Ha Hb].
@@ -317,7 +327,7 @@ Qed.
 Fixpoint wf_actuator (n : node) : bool :=
   match n with
   | Leaf LActuator _ => true
-  | Node NActuatorsDict _ cs => forallb (fun c => wf_actuator (snd c)) cs
+  | Node NActuatorsDict _ cs => forallb (fun c => if Nat.eqb (fst c) n_self then is_self (snd c) else wf_actuator (snd c)) cs
   | Node NActWrap _ [(a, s); (b, w)] => Nat.eqb a n_actuator && Nat.eqb b n_wrapper && wf_actuator s && is_wrapper w
   | _ => false
   end.
@@ -337,7 +347,11 @@ Proof.
   - rewrite Forall_forall in IH. destruct k; simpl in H; try discriminate.
     + cbn [affect actuator_leaves]. rewrite forallb_forall in H.
       clear -IH H. induction cs as [|c cs IHc]; simpl; [reflexivity|].
-      assert (E : map fst (affect (snd c) (lookup (fst c) v)) = actuator_leaves (snd c)) by (apply IH; [now left|apply H; now left]).
+      pose proof (H c (or_introl eq_refl)) as Hc.
+      assert (E : map fst (affect (snd c) (lookup (fst c) v)) = actuator_leaves (snd c)).
+      { destruct (Nat.eqb (fst c) n_self); [|apply IH; [now left|exact Hc]].
+        (* the composite's own part: it is handed nothing and is no actuator *)
+        destruct (snd c) as [k i|k i l]; try discriminate Hc. destruct k; try discriminate Hc. reflexivity. }
       rewrite map_app, E. f_equal.
       apply IHc; [intros x Hx; apply IH; now right | intros x Hx; apply H; now right].
     + destruct cs as [|[a s] [|[b w] [|]]]; try discriminate.
